@@ -42,7 +42,7 @@ ACCENTS = [("\\'e", 'é'), ('\\`a', 'à'), ('\\^o', 'ô'), ('\\"u', 'ü'), ('\\~
 SHORT_DE = [('"a', 'ä'), ('"o', 'ö'), ('"U', 'Ü'), ('"s', 'ß'), ('"`', '„'), ('"\'', '“'), ('"=', '-')]
 
 ALL_KINDS = ['word', 'word', 'atom', 'unk', 'unkarg', 'unkarg2', 'label', 'index', 'ref', 'cite', 'citeopt',
-             'section', 'footnote', 'caption', 'textcolor', 'href', 'comment', 'skip', 'ltskip', 'ltadd', 'ltalter',
+             'section', 'usersec', 'footnote', 'caption', 'textcolor', 'href', 'comment', 'skip', 'ltskip', 'ltadd', 'ltalter',
              'itemize', 'enumerate', 'itemlab', 'verb', 'verbatim', 'inline', 'display', 'tabular', 'proof',
              'theorem', 'tikz', 'usermac', 'usermac2', 'usermacopt', 'usermacoptonly', 'defmac', 'defbymac', 'latexname', 'texorpdf', 'framebox',
              'unkenv', 'figure', 'minipage', 'vanish', 'hspace', 'phantom', 'quad', 'newline', 'group',
@@ -72,7 +72,7 @@ def pkgs_of(pack):
     return out
 
 
-HEAD_FORBIDDEN = {'display', 'enumerate', 'section', 'proof', 'itemize', 'tabular', 'tikz', 'theorem', 'itemlab',
+HEAD_FORBIDDEN = {'display', 'enumerate', 'section', 'usersec', 'proof', 'itemize', 'tabular', 'tikz', 'theorem', 'itemlab',
                   'verbatim', 'figure', 'minipage', 'defmac', 'defbymac', 'removed_ext', 'unkenv', 'lstlisting', 'par', 'glsentry'}
 SIDE_EFFECTS = {'footnote', 'caption', 'inline', 'usermac', 'usermac2', 'usermacopt', 'usermacoptonly', 'gls', 'cref',
                 'footcite', 'twice_ext', 'mathtext'}
@@ -252,7 +252,7 @@ class Gen:
                                    'itemize', 'enumerate', 'itemlab', 'tabular', 'figure', 'unkenv', 'tikz',
                                    'removed_ext', 'skip', 'defmac', 'defbymac', 'comment', 'glsentry'):
             k = 'word'
-        if self.in_item and k in ('section',):
+        if self.in_item and k in ('section', 'usersec'):
             k = 'word'
         self.kinds[k] += 1
         self.depth += 1
@@ -435,6 +435,17 @@ class Gen:
         en = self.pos()
         if len(self.cur) > m0 and self.cur[-1][0] not in '!?':
             self.gen('.', st + 1, en, 'heading-dot')
+
+    def k_usersec(self):
+        """a heading produced by a user macro; the heading text ends with tokens of the macro body"""
+        st = self.pos()
+        self.w('\\ytsec')
+        self.optws()
+        self.in_head += 1
+        self.group(tag='userarg')
+        self.in_head -= 1
+        en = self.pos()
+        self.gen('ybodygLaTeX.', st + 1, en, 'macro-body-heading')
 
     def detached(self, f, st):
         old = self.cur
@@ -1008,7 +1019,8 @@ PREAMBLE = ('\\newcommand{\\ymaca}[1]{ybodya #1 ybodyb}\n'
             '\\newcommand{\\ymacc}[2][ydflt]{ybodyd #1 #2}\n'
             '\\newcommand{\\ymacd}[1][ydfltb]{ybodye #1}\n'
             '\\newcommand{\\ydefm}[2]{\\newcommand{#1}{#2 ybodyf}}\n'
-            '\\newcommand{\\ysite}[1]{\\url{ysitepre/#1}}\n')
+            '\\newcommand{\\ysite}[1]{\\url{ysitepre/#1}}\n'
+            '\\newcommand{\\ytsec}[1]{\\section{#1 ybodyg \\LaTeX}}\n')
 CREFSED = ('s/\\\\cref{ylab}/ycrefig~(7)/g\n'
            's/\\\\Cref{ylab}/Ycrefig~(7)/g\n'
            's/\\\\cref{yl2}/ycreq (1) to (2)/g\n'
